@@ -168,6 +168,7 @@ static const char *why_key(int rc) { return rc == DW_E_EMPTY_LABEL ? "empty-labe
 static int new_resolver(int randcase, const char *edns_val)
 {
 	vclock_reset(); dp_rng_reset(); memset(&g_cb, 0, sizeof g_cb);
+	if (E.lsock >= 0) { int stale; while ((stale = accept4(E.lsock, NULL, NULL, SOCK_NONBLOCK | SOCK_CLOEXEC)) >= 0) close(stale); }
 	g_dns = evdns_base_new(E.eb, 0);
 	if (!g_dns) return -1;
 	if (evdns_base_nameserver_sockaddr_add(g_dns, (struct sockaddr *)&E.sin, sizeof E.sin, 0)) return -1;
